@@ -178,6 +178,10 @@ func (w *C02) Run(t *rt.Tape, trace bool) *core.Result {
 	core.BeginRun(t)
 	pipe, small := DrawPipe(t)
 	opts := gen.CircuitOpts{}
+	if w.Tier == "thorough" {
+		opts.MaxGates = 1500 // deeper bounds in the thorough tier
+		opts.MaxIn = 48
+	}
 	if small {
 		opts.MaxGates = 60
 	}
